@@ -125,6 +125,7 @@ class C11Sched(Scheduler):
         self.resets_left = 0
         self.reset_since_sub = False
         self.unacked_rounds = 0
+        self.forwarded = False
 
     def _round(self):
         w, rng = self.w, self.rng
@@ -146,6 +147,16 @@ class C11Sched(Scheduler):
         top = max(orc.G) if orc.G else 1
         for h in self.w.hosts:
             if h.node is not None and h.node.raftLastApplied < top:
+                return False
+        return True
+
+    def _in_no_log(self, tag):
+        # every log entry of every node is applied and the command is not among the applied ones: no log holds it
+        if tag in self.w.oracle.Gtag:
+            return False
+        for h in self.w.hosts:
+            n = h.node
+            if n is not None and n._SyncObj__raftLog[-1][1] != n.raftLastApplied:
                 return False
         return True
 
@@ -188,6 +199,17 @@ class C11Sched(Scheduler):
                     self.rounds = 0
                     self.unacked_rounds = 0
                     return self.next_event()
+            if not cb and self.reset_since_sub and self.forwarded and self._in_no_log(self.waiting):
+                # a forwarded command was on its way to the leader on the connection that was reset: it is in no log,
+                # nobody will ever execute or acknowledge it (8.4) - no replica executes it with other arguments or
+                # twice, which is what C11 states; after a grace of 300 rounds go on
+                self.unacked_rounds += 1
+                if self.unacked_rounds > 300:
+                    w.probe('forwarded_command_lost_with_reset_link')
+                    self.waiting = None
+                    self.rounds = 0
+                    self.unacked_rounds = 0
+                    return self.next_event()
             if done and cb:
                 self.waiting = None
                 self.rounds = 0
@@ -226,6 +248,7 @@ class C11Sched(Scheduler):
         self.resets_left = rng.choice([1, 1, 2, 3]) if self.linkloss else 0
         self.reset_since_sub = False
         self.unacked_rounds = 0
+        self.forwarded = i != lead
         return [0.0, 'sub', i, 'echo', tag, shape, size]
 
 
@@ -329,6 +352,8 @@ class C11Spec(Spec):
             return
         if sch._applied_everywhere(tag) and any(ev[1] == 'rst' for ev in w.trace[last + 1:]):
             return      # executed everywhere, the reply was lost with a reset link (see C11Sched.next_event)
+        if not cb and sch._in_no_log(tag) and any(ev[1] == 'rst' for ev in w.trace[last + 1:]):
+            return      # lost on its way to the leader with a reset link (see C11Sched.next_event)
         if rounds >= max_rounds:
             sh = orc.shapes.get(tag)
             orc.flag('not_applied_everywhere',
